@@ -342,8 +342,10 @@ func (c *Ctx) subRef(s *State, base Term, structT types.Type, field int) Term {
 	t := c.d.Apply(name, []Term{base}, SInt)
 	inv := c.d.Fun("inv"+name, []Sort{SInt}, SInt)
 	c.d.Fun("birth", []Sort{SInt}, SInt)
-	// instance axioms: injective, non-null, same birth as parent
-	s.assume(Term{fmt.Sprintf("(and (= (%s %s) %s) (not (= %s 0)) (= (birth %s) (birth %s)))", inv, t.S, base.S, t.S, t.S, base.S), SBool})
+	c.d.Fun("subtag", []Sort{SInt}, SInt)
+	// instance axioms: injective, non-null, same birth as parent, and distinct from the sub-objects
+	// of every other field (subtag is a per-field constant)
+	s.assume(Term{fmt.Sprintf("(and (= (%s %s) %s) (not (= %s 0)) (= (birth %s) (birth %s)) (= (subtag %s) %d))", inv, t.S, base.S, t.S, t.S, base.S, t.S, c.eng.globalID(name)), SBool})
 	return t
 }
 
